@@ -2,7 +2,10 @@
 package document
 
 import (
+	"bytes"
 	"encoding/xml"
+	"io"
+	"strings"
 )
 
 // OfficeMath 表示Office数学公式元素
@@ -75,11 +78,47 @@ func (mp *MathParagraph) ElementType() string {
 	return "math_paragraph"
 }
 
+// sanitizeMathContent 确保公式内容是良构的XML片段（OMML）。
+// 内容会原样写入 m:oMath 内部；如果它不是良构的XML片段（例如纯文本或包含
+// 未转义的 <、& 或非法字符），则将其转义后作为公式文本（m:r/m:t）写入，
+// 避免生成无法解析的 document.xml。
+func sanitizeMathContent(content string) string {
+	decoder := xml.NewDecoder(strings.NewReader("<m:oMath>" + content + "</m:oMath>"))
+	depth, closed, wellFormed := 0, false, true
+	for wellFormed {
+		token, err := decoder.Token()
+		if err == io.EOF {
+			break
+		}
+		if err != nil || closed {
+			// 解析错误，或内容提前闭合了外层元素
+			wellFormed = false
+			break
+		}
+		switch token.(type) {
+		case xml.StartElement:
+			depth++
+		case xml.EndElement:
+			depth--
+			closed = depth == 0
+		}
+	}
+	if wellFormed && closed {
+		return content
+	}
+
+	var escaped bytes.Buffer
+	_ = xml.EscapeText(&escaped, []byte(content))
+	return "<m:r><m:t>" + escaped.String() + "</m:t></m:r>"
+}
+
 // AddMathFormula 向文档添加数学公式
 // latex: LaTeX格式的数学公式
 // isBlock: 是否为块级公式（true为块级，false为行内）
 func (d *Document) AddMathFormula(latex string, isBlock bool) *MathParagraph {
 	Debugf("添加数学公式: %s (块级: %v)", latex, isBlock)
+
+	latex = sanitizeMathContent(latex)
 
 	mp := &MathParagraph{
 		Runs: []Run{},
